@@ -119,21 +119,29 @@ def check_encoder(f, rep):
             if not ws:
                 continue
             rep.count("encoder_paths_with_frames")
-            # group into frames: [put_u8 F][size][body]
-            i = 0
-            k = 0
-            while i < len(ws):
-                grp = ws[i:i + 3]
-                i += 3
-                k += 1
+            # group writes by the inlined frame-writer call they belong to
+            groups = []
+            cur = None
+            for e in p.events:
+                if e.kind == "call" and e.extra == "inlined" and e.args and len(e.args) >= 3 and e.args[1] == dst:
+                    cur = {"more": e.args[2], "call": e, "ws": []}
+                    groups.append(cur)
+                    more_exprs[show(e.args[2])] = (e.args[2], e)
+                elif e in ws:
+                    if cur is None:
+                        cur = {"more": None, "call": None, "ws": []}
+                        groups.append(cur)
+                    cur["ws"].append(e)
+            for g in groups:
+                grp = g["ws"]
                 key = "R01.4|%s|frame-shape" % enc.path
                 if len(grp) != 3 or short(grp[0].name) != "put_u8" or short(grp[1].name) not in WRITE_SIZES or short(grp[2].name) not in BODY_WRITES:
-                    rep.bad("R01.4", key, "frame is not written as [flags byte, size field, body]: %s" % [short(g.name) for g in grp],
-                            "%s bb%d" % (grp[0].fnpath, grp[0].bb))
+                    rep.bad("R01.4", key, "frame is not written as [flags byte, size field, body]: %s" % [short(x.name) for x in grp],
+                            "%s bb%d" % (grp[0].fnpath, grp[0].bb) if grp else enc.loc())
                     continue
+                rep.ok("R01.4", key, "each frame is written as [flags byte, size field, body]", "%s bb%d" % (grp[0].fnpath, grp[0].bb))
                 frames_seen += 1
                 fl, sz, body = grp
-                # size and body derive from the same frame
                 lb = len_base(sz.args[1])
                 bb_ = slice_base(body.args[1])
                 if lb is None or lb != bb_:
@@ -141,18 +149,17 @@ def check_encoder(f, rep):
                             "size field does not measure the body that is written: size=%s body=%s" % (show(sz.args[1]), show(body.args[1])),
                             "%s bb%d" % (sz.fnpath, sz.bb))
                     continue
+                rep.ok("R01.4", "R01.4|%s|size-body-match" % enc.path, "size field measures the body that is written", "%s bb%d" % (sz.fnpath, sz.bb))
                 lenexpr = strip_casts(sz.args[1])
                 iv = interval_of(p.conds, lenexpr)
                 szname = short(sz.name)
                 if szname == "put_u8":
-                    ok = iv.within(0, 255)
                     long_ = False
-                    rep.check(ok, "R01.2", "R01.2|%s|short-size-bound" % enc.path,
+                    rep.check(iv.within(0, 255), "R01.2", "R01.2|%s|short-size-bound" % enc.path,
                               "1-byte size written only when guards imply len<=255 (interval %s)" % iv, "%s bb%d" % (sz.fnpath, sz.bb))
                 elif szname == "put_u64":
-                    ok = iv.within(256, None)
                     long_ = True
-                    rep.check(ok, "R01.2", "R01.2|%s|long-size-bound" % enc.path,
+                    rep.check(iv.within(256, None), "R01.2", "R01.2|%s|long-size-bound" % enc.path,
                               "8-byte size written only when guards imply len>=256 (interval %s)" % iv, "%s bb%d" % (sz.fnpath, sz.bb))
                 else:
                     rep.bad("R01.2", "R01.2|%s|size-writer" % enc.path,
@@ -160,17 +167,8 @@ def check_encoder(f, rep):
                             "%s bb%d" % (sz.fnpath, sz.bb))
                     continue
                 widths.add(szname)
-                # flags
                 fv = fl.args[1]
-                # which `more` value did this path take? find the inlined helper call that precedes this group
-                more_e = None
-                for e in p.events:
-                    if e.kind == "call" and e.extra == "inlined" and e.args and len(e.args) >= 3 and e.args[1] == dst:
-                        more_e = e.args[2]
-                        more_exprs[show(more_e)] = (more_e, e)
-                        if p.events.index(e) < p.events.index(fl):
-                            cur_more = more_e
-                more_e = locals().get("cur_more", more_e)
+                more_e = g["more"]
                 if more_e is None:
                     rep.bad("R01.1", "R01.1|%s|more-anchor" % enc.path, "cannot find the MORE argument of the frame writer (anchor-missing)", enc.loc())
                     continue
@@ -436,137 +434,132 @@ def check_greeting(f, rep):
             break
 
 
+def mask_of(e):
+    """K if e is a normal form of `(x & K) != 0`; ("inv", K) for `(x & K) == 0`."""
+    e = strip_casts(e)
+    inv = False
+    while e[0] == "unop" and e[1] == "Not":
+        inv = not inv
+        e = e[2]
+    if e[0] == "binop" and e[1] in ("Ne", "Eq", "Gt") and e[3] == ("int", 0) and e[2][0] == "binop" and e[2][1] == "BitAnd" and e[2][3][0] == "int":
+        if e[1] == "Eq":
+            inv = not inv
+        return ("inv", e[2][3][1]) if inv else e[2][3][1]
+    if e[0] == "binop" and e[1] == "Eq" and e[2][0] == "binop" and e[2][1] == "BitAnd" and e[2][3][0] == "int" and e[3] == e[2][3]:
+        return ("inv", e[3][1]) if inv else e[3][1]
+    return None
+
+
+def arm_blocks(body, entry, other):
+    """Blocks executed only when control enters `entry` rather than `other` (dominated by the arm entry)."""
+    return {b for b in body.reachable(entry) if body.dominates(entry, b)} - {other}
+
+
 def check_decoder(f, rep):
     decs = trait_impls(f, "asynchronous_codec::Decoder", "decode")
     rep.floor("R01.1", "Decoder::decode impl of the codec", len(decs), 1)
     for self_ty, dec in decs.items():
-        sym = Sym(f, max_visits=5, inline=lambda fn: fn.get("local") and fn["path"] == dec.path, inline_depth=3)
-        try:
-            paths = sym.paths(dec)
-        except PathExplosion as e:
-            rep.bad("R01.1", "R01.1|decode|explosion", "cannot enumerate decoder paths: %s" % e, dec.loc())
-            continue
-        rep.count("decoder_paths", len(paths))
-        masks = {"width": set(), "command": set(), "more": set()}
-        width_ok = 0
-        for p in paths:
-            # flags byte: result of the get_u8 call whose value is masked
-            maskconds = []
-            for (e, c, _, _) in p.conds:
-                if e[0] == "binop" and e[1] in ("Ne", "Eq") and e[3] == ("int", 0) and e[2][0] == "binop" and e[2][1] == "BitAnd" and e[2][3][0] == "int":
-                    t = truth_of(p, e)
-                    if t is None:
-                        continue
-                    if e[1] == "Eq":
-                        t = not t
-                    maskconds.append((e[2][3][1], t, e))
-            if not maskconds:
+        # step 1: header struct: field index -> mask
+        field_mask = {}
+        hdr_adt = None
+        for blk in dec.blocks:
+            for st in blk["stmts"]:
+                if st["k"] == "assign" and st["rv"]["k"] == "aggregate" and st["rv"]["ak"] == "adt":
+                    ms = [mask_of(dec.expr_of_operand(o)) for o in st["rv"]["ops"]]
+                    if ms and all(m is not None for m in ms):
+                        hdr_adt = st["rv"]["adt"]
+                        for i, m in enumerate(ms):
+                            field_mask[i] = m
+        rep.floor("R01.1", "header fields derived from flag masks", len(field_mask), 3)
+        # step 2: classify every switch on a header field / mask expression by what its arms do
+        roles = {}
+        for bb in sorted(dec.reachable(0)):
+            t = dec.term(bb)
+            if t["k"] != "switch" or t["op"]["k"] == "const":
                 continue
-            # what did the path do after each mask decision?
-            names = [short(ev.name) for ev in p.events if ev.kind == "call"]
-            stores = [(ev.place, ev.value) for ev in p.events if ev.kind == "store"]
-            for (k, t, e) in maskconds:
-                # width: a store of 8 / 1 to the counter and get_u64/get_u8 as size read
-                pass
-            longs = [t for (k, t, e) in maskconds if k == 2]
-            # width selection: the store of const 8 happens iff some mask decision was true; record which mask
-            wf = [v for (pl, v) in stores if pl.endswith("waiting_for") and v in (("int", 8), ("int", 1))]
-            for (k, t, e) in maskconds:
-                if ("int", 8) in wf and t and not any(t2 and k2 != k for (k2, t2, _) in maskconds):
-                    masks["width"].add(k)
-                if any(n == "try_from" for n in names) and "ZmqCommand" in " ".join(ev.name for ev in p.events if ev.kind == "call") and t and not any(t2 and k2 != k for (k2, t2, _) in maskconds):
-                    masks["command"].add(k)
-            # reader width agreement on this path
-            if longs:
-                lg = longs[0]
-                size_reads = [n for n in names if n in ("get_u64", "get_u64_le", "get_u32", "get_u16", "get_uint")]
-                if ("int", 8) in wf or ("int", 1) in wf:
-                    want = ("int", 8) if lg else ("int", 1)
-                    first = [v for v in wf if v in (("int", 8), ("int", 1))]
-                    # the first width store after the header decides
-                    hdr_store = None
-                    for (pl, v) in stores:
-                        if pl.endswith("waiting_for") and v in (("int", 8), ("int", 1)):
-                            hdr_store = v
-                            if v == want:
-                                break
-                    ok = want in wf and (not lg or "get_u64" in names or not any(n.startswith("get_u") and n != "get_u8" for n in names)) and not (not lg and ("int", 8) in wf)
-                    ok = ok and not (lg and ("int", 8) not in wf)
-                    if lg and size_reads and "get_u64" not in size_reads:
-                        ok = False
-                    width_ok += 1
-                    rep.check(ok, "R01.2", "R01.2|%s|reader-width|long=%d" % (dec.path, lg),
-                              "decoder waits for %s and reads the size with %s when LONG=%s" % ([show(v) for v in wf], size_reads or ["get_u8"], lg), dec.loc())
-        # mask table by role, robustly: evaluate from Frame aggregate construction
-        roles = frame_roles(f, dec, paths)
-        for role, want in (("long", 2), ("command", 4), ("more", 1)):
-            got = roles.get(role)
-            rep.check(got == {want}, "R01.1", "R01.1|%s|reader-mask|%s" % (dec.path, role),
-                      "decoder derives `%s` from flags mask %s (RFC 23: 0x%02x)" % (role, sorted(got) if got else None, want), dec.loc())
-        rep.floor("R01.2", "decoder paths with a width decision", width_ok, 2)
-
-
-def frame_roles(f, dec, paths):
-    """Which flags mask feeds each *use* of the header: width selection (8|1), command routing, multipart continue.
-    The header fields are identified by how they are used, not by name."""
-    roles = {}
-    for p in paths:
-        for (e, c, bb, fp) in p.conds:
-            t = truth_of(p, e)
-            if t is None:
-                continue
-            ms = [x for x in walk_expr(e) if isinstance(x, tuple) and x and x[0] == "binop" and x[1] == "BitAnd" and x[3][0] == "int"]
-            if not ms:
-                continue
-            k = ms[0][3][1]
-            # effects that follow this decision on the path
-            idx = p.conds.index((e, c, bb, fp))
-            later_blocks = set(p.blocks[p.blocks.index((fp, bb)) + 1:]) if (fp, bb) in p.blocks else set()
-            # next decision block bounds the "arm"
-            nxt = p.conds[idx + 1][2] if idx + 1 < len(p.conds) else None
-            arm = []
-            started = False
-            for (fpp, b2) in p.blocks:
-                if (fpp, b2) == (fp, bb):
-                    started = True
-                    continue
-                if started:
-                    if nxt is not None and b2 == nxt:
-                        arm.append(b2)
+            k = None
+            pl = t["op"]["place"]
+            e = dec.expr_of_operand(t["op"])
+            m = mask_of(e)
+            if m is not None:
+                k = m
+            else:
+                # a field of the header struct, possibly copied through a temp
+                for x in walk_expr(e):
+                    if isinstance(x, tuple) and x and x[0] == "field" and x[3] == "bool":
+                        idx = header_field_index(f, hdr_adt, x[2])
+                        if idx is not None and idx in field_mask:
+                            k = field_mask[idx]
                         break
-                    arm.append(b2)
-            evs = [ev for ev in p.events if ev.bb in arm]
-            for ev in evs:
-                if ev.kind == "store" and ev.place.endswith("waiting_for") and ev.value in (("int", 8), ("int", 1)):
-                    if (ev.value == ("int", 8)) == (truth_norm(e, t)):
-                        roles.setdefault("long", set()).add(k)
-                    else:
-                        roles.setdefault("long", set()).add(("inverted", k))
-                if ev.kind == "call" and short(ev.name) in ("get_u64",) and truth_norm(e, t):
-                    roles.setdefault("long", set()).add(k)
-                if ev.kind == "call" and short(ev.name) == "try_from" and "Command" in ev.name:
-                    roles.setdefault("command", set()).add(k if truth_norm(e, t) else ("inverted", k))
-                if ev.kind == "call" and short(ev.name) == "take" and not truth_norm(e, t):
-                    roles.setdefault("more", set()).add(k)
-                if ev.kind == "call" and short(ev.name) == "take" and truth_norm(e, t):
-                    roles.setdefault("more", set()).add(("inverted", k))
-    return roles
+            if k is None:
+                continue
+            false_t = [b for v, b in t["targets"] if v == 0]
+            true_t = [t["otherwise"]] if false_t else []
+            if not false_t or not true_t:
+                continue
+            arms = {True: arm_blocks(dec, true_t[0], false_t[0]), False: arm_blocks(dec, false_t[0], true_t[0])}
+            eff = {True: arm_effects(dec, arms[True]), False: arm_effects(dec, arms[False])}
+            inv = isinstance(k, tuple)
+            kk = k[1] if inv else k
+            for truth in (True, False):
+                sem = (not truth) if inv else truth       # truth of (flags & K) != 0 on this arm
+                for ef in eff[truth]:
+                    roles.setdefault(ef, set()).add((kk, sem))
+        rep.count("decoder_mask_switches", len(roles))
+        want = {
+            "wait8": (2, True), "wait1": (2, False), "get_u64": (2, True), "get_u8_size": (2, False),
+            "command_parse": (4, True), "yield_message": (1, False),
+        }
+        for ef, (k, sem) in want.items():
+            got = roles.get(ef)
+            if ef == "yield_message" and got:
+                # a message is also only yielded for non-command frames: (4, False) is consistent
+                got = got - {(4, False)}
+            rep.check(got == {(k, sem)}, "R01.1" if ef in ("command_parse", "yield_message") else "R01.2",
+                      "R01.x|%s|reader|%s" % (dec.path, ef),
+                      "decoder effect `%s` happens under (flags & K != 0) = %s (RFC 23: K=0x%02x, %s)" % (
+                          ef, sorted(got) if got else None, k, sem), dec.loc())
+        for ef in roles:
+            if ef.startswith("size_read:"):
+                rep.bad("R01.2", "R01.2|%s|reader-size-read|%s" % (dec.path, ef), "decoder reads a size field with %s (ZMTP: get_u8 / big-endian get_u64)" % ef[10:], dec.loc())
 
 
-def truth_norm(e, t):
-    """Truth of `(flags & K) != 0` given that expression e evaluated to t (handles Eq/Ne/Not wrappers)."""
-    x = e
-    neg = False
-    while True:
-        if x[0] == "unop" and x[1] == "Not":
-            neg = not neg
-            x = x[2]
-            continue
-        if x[0] == "binop" and x[1] == "Eq" and x[3] == ("int", 0):
-            neg = not neg
-            break
-        break
-    return (not t) if neg else t
+def header_field_index(f, adt_path, name):
+    a = f.adts.get(adt_path) if adt_path else None
+    if not a:
+        return None
+    for i, fl in enumerate(a["variants"][0]["fields"]):
+        if fl["name"] == name or str(i) == str(name):
+            return i
+    return None
+
+
+def arm_effects(body, blocks):
+    out = set()
+    for b in blocks:
+        blk = body.blocks[b]
+        for st in blk["stmts"]:
+            if st["k"] == "assign" and st["place"]["p"] and st["place"]["ty"] == "usize" and st["rv"]["k"] == "use" and "int" in st["rv"]["op"]:
+                v = st["rv"]["op"]["int"]
+                if v in (8, 1):
+                    out.add("wait%d" % v)
+            if st["k"] == "assign" and not st["place"]["p"] and body.local_ty(st["place"]["l"]) == "usize" and st["rv"]["k"] == "use" and st["rv"]["op"].get("int") in (8, 1):
+                out.add("wait%d" % st["rv"]["op"]["int"])
+        t = blk["term"]
+        if t["k"] == "call" and t["func"].get("fn"):
+            fn = t["func"]["fn"]
+            n = fn["name"]
+            if n == "get_u64":
+                out.add("get_u64")
+            elif n == "get_u8":
+                out.add("get_u8_size")
+            elif n.startswith("get_u") or n.startswith("get_i"):
+                out.add("size_read:" + n)
+            elif n == "try_from" and any("ZmqCommand" in a for a in fn.get("args", [])):
+                out.add("command_parse")
+            elif n == "take" and any("ZmqMessage" in a for a in fn.get("args", [])):
+                out.add("yield_message")
+    return out
 
 
 def check_ready(f, rep):
